@@ -397,3 +397,532 @@ def note_of(op):
     if op[0] == "err":
         return ("E", op[1])
     return ("C",)
+
+
+# --------------------------------------------------------------------------
+# oracles: the property statements, evaluated on the implementation's records
+# --------------------------------------------------------------------------
+
+def _children(tr, cid, o):
+    """notifications delivered to o directly by call cid (innermost open call)"""
+    return [n for (_, n, c) in tr.view.get(o, []) if c == cid]
+
+
+def _is_prefix(a, b):
+    return len(a) <= len(b) and b[:len(a)] == a
+
+
+def oracle_sync(kind, hist, v0, rec, probe):
+    """-> list of (signature, detail).  kind: subject | behavior | async.
+    Statement checked (C20/C21/C23), directly on the observed run:
+      * every delivery is made by an emission call that took effect (subject live when the
+        call started) and carries that call's notification, or is part of the greeting of the
+        receiver's own subscribe call;  [=> call order among non-overlapping calls]
+      * an emission that took effect reaches every observer whose subscribe() had returned
+        before the call started and which has neither unsubscribed nor received a terminal
+        (exactly once / with the class's answer); observers that unsubscribe or are terminated
+        by another call WHILE the call is in progress may miss (a suffix of) it; nobody else
+        receives anything from it;
+      * emissions on an ended subject do nothing, on a disposed subject raise DisposedException;
+      * greeting: live -> nothing (Subject, Async) / the current value first (Behavior);
+        ended -> only the terminal (Async after completion: last value, completion);
+        disposed -> only DisposedException; a bare subscribe() raises it;
+      * each observer's sequence is  on_next* (on_error|on_completed)?"""
+    tr = Trace(rec)
+    bad = []
+    reentrant = any(c["parent"] is not None for c in tr.order)
+
+    def fail(what, **d):
+        bad.append((f"{what}|reentrant={int(reentrant)}", dict(d, what=what)))
+
+    for o in tr.observers:
+        if not wellformed([n for (_, n, _) in tr.view[o]]):
+            fail("grammar", observer=o, received=[n for (_, n, _) in tr.view[o]])
+
+    # the value the subject holds at record index i: last accepted on_next started before i
+    def last_value(i):
+        v, has = v0, False
+        for c in tr.accepted:
+            if c["op"][0] == "next" and c["start"] < i:
+                v, has = c["op"][1], True
+        return v, has
+
+    def answer(c):
+        """what one subscribed observer receives from accepted emission c"""
+        op = c["op"]
+        if kind == "async":
+            if op[0] == "next":
+                return []
+            if op[0] == "done":
+                v, has = last_value(c["start"])
+                return ([("N", v)] if has else []) + [("C",)]
+        return [note_of(op)]
+
+    def greeting(c):
+        st = tr.status_at[c["id"]]
+        if st == "disposed":
+            return [("E", DISPOSED)]
+        if st == "live":
+            if kind == "behavior":
+                return [("N", last_value(c["start"])[0])]
+            return []
+        t = st[1]
+        if kind == "async" and t == ("C",):
+            v, has = last_value(c["start"])
+            return ([("N", v)] if has else []) + [("C",)]
+        return [t]
+
+    accepted_ids = {c["id"] for c in tr.accepted}
+    # 1. attribution of every delivery
+    for o in tr.observers:
+        for (i, n, cid) in tr.view[o]:
+            if cid is None:
+                fail("delivery-outside-any-call", observer=o, note=n)
+                continue
+            c = tr.calls[cid]
+            k = c["op"][0]
+            if k in ("next", "err", "done"):
+                if cid not in accepted_ids:
+                    fail("delivery-from-ineffective-call", observer=o, note=n, call=c["op"],
+                         status=tr.status_at[cid])
+                elif n not in answer(c):
+                    fail("wrong-notification", observer=o, note=n, call=c["op"])
+            elif k == "sub":
+                if c["op"][1] != o or tr.sub.get(o) is not c:
+                    fail("greeting-to-wrong-observer", observer=o, note=n, call=c["op"])
+            else:
+                fail("delivery-from-non-emitting-call", observer=o, note=n, call=c["op"])
+    # 2. every call
+    for c in tr.order:
+        k, cid = c["op"][0], c["id"]
+        st = tr.status_at[cid]
+        if k in ("next", "err", "done"):
+            if st == "disposed":
+                if c["raised"] != DISPOSED:
+                    fail("emit-after-dispose-did-not-raise", call=c["op"], raised=c["raised"])
+                continue
+            if c["raised"] is not None:
+                fail("emit-raised", call=c["op"], raised=c["raised"])
+            if cid not in accepted_ids:
+                continue
+            exp = answer(c)
+            for o in tr.observers:
+                got = _children(tr, cid, o)
+                sub = tr.sub.get(o)
+                registered = (sub is not None and tr.status_at[sub["id"]] == "live")
+                if not registered or sub["start"] > c["start"]:
+                    cls = "none"
+                elif sub["end"] is None or sub["end"] > c["start"]:
+                    cls = "may"            # the call is made from inside o's own subscribe()
+                else:
+                    e = tr.ended_at(o)
+                    if e is not None and e < c["start"]:
+                        cls = "none"
+                    elif e is not None and e < c["end"] and not (rec[e]["t"] == "got" and rec[e]["call"] == cid):
+                        cls = "may"        # unsubscribed / terminated by another call meanwhile
+                    else:
+                        cls = "must"
+                if cls == "none" and got:
+                    fail("delivered-to-unsubscribed", observer=o, call=c["op"], got=got)
+                elif cls == "may" and not _is_prefix(got, exp):
+                    fail("wrong-partial-delivery", observer=o, call=c["op"], got=got, expected=exp)
+                elif cls == "must" and got != exp:
+                    fail("missed-or-duplicated-delivery", observer=o, call=c["op"], got=got, expected=exp)
+        elif k == "sub":
+            o = c["op"][1]
+            if c["raised"] is not None:
+                fail("subscribe-raised", call=c["op"], raised=c["raised"])
+            if tr.sub.get(o) is not c:
+                continue                               # id used before: skipped by the driver
+            exp = greeting(c)
+            got = _children(tr, cid, o)
+            if st == "live":
+                if got != exp:
+                    fail("wrong-greeting", observer=o, got=got, expected=exp)
+                if exp and (not tr.view[o] or tr.view[o][0][2] != cid):
+                    fail("greeting-not-first", observer=o)
+            else:
+                whole = [n for (_, n, _) in tr.view[o]]
+                if whole != exp:
+                    fail("late-subscriber", observer=o, status=st, received=whole, expected=exp)
+        else:
+            if c["raised"] is not None:
+                fail("call-raised", call=c["op"], raised=c["raised"])
+    # 3. the literal reading of "subscribing raises DisposedException"
+    #    (a subscriber without error handler: on_error defaults to raising; so a subject that
+    #    ended with error e raises e, a disposed one DisposedException, otherwise nothing)
+    if tr.final_status == "disposed":
+        want = ("raised", DISPOSED)
+    elif tr.final_status != "live" and tr.final_status[1][0] == "E":
+        want = ("raised", tr.final_status[1][1])
+    else:
+        want = ("returned",)
+    if probe != want:
+        fail("bare-subscribe", probe=probe, expected=want, status=tr.final_status)
+    return bad
+
+
+def shrink(hist, still_fails):
+    """greedy delta debugging on the history tree: drop top-level operations, script
+    entries, nested operations, while `still_fails(hist)` holds"""
+    top, scripts = list(hist[0]), {o: [list(r) for r in rs] for o, rs in hist[1].items()}
+    changed = True
+    while changed:
+        changed = False
+        for i in range(len(top)):
+            cand = (top[:i] + top[i + 1:], scripts)
+            if still_fails(cand):
+                top = cand[0]
+                changed = True
+                break
+        if changed:
+            continue
+        for o in list(scripts):
+            cand_s = {k: v for k, v in scripts.items() if k != o}
+            if still_fails((top, cand_s)):
+                scripts = cand_s
+                changed = True
+                break
+            for j in range(len(scripts[o])):
+                for q in range(len(scripts[o][j])):
+                    cand_s = {k: [list(r) for r in v] for k, v in scripts.items()}
+                    del cand_s[o][j][q]
+                    if still_fails((top, cand_s)):
+                        scripts = cand_s
+                        changed = True
+                        break
+                if changed:
+                    break
+            if changed:
+                break
+    return (top, scripts)
+
+
+def hist_size(hist):
+    return len(hist[0]) + sum(len(r) for rs in hist[1].values() for r in rs)
+
+
+def hist_json(hist):
+    return {"top": [list(o) for o in hist[0]],
+            "scripts": {str(o): [[list(x) for x in r] for r in rs] for o, rs in hist[1].items()}}
+
+
+def hist_from_json(d):
+    return ([tuple(o) for o in d["top"]],
+            {int(o): [[tuple(x) for x in r] for r in rs] for o, rs in d["scripts"].items()})
+
+
+# --------------------------------------------------------------------------
+# the check shared by C20 / C21 / C23
+# --------------------------------------------------------------------------
+
+SYNC = {
+    "C20": dict(kind="subject", cls="subject_cls", title="Subject"),
+    "C21": dict(kind="behavior", cls="(behavior_cls 0)", title="BehaviorSubject"),
+    "C23": dict(kind="async", cls="(async_cls 0)", title="AsyncSubject"),
+}
+SYNC_IMPORTS = "Base.Prelude Ops.Machine Subjects.Subject Subjects.Behavior Subjects.Async"
+FUEL = 20000
+
+
+def sync_cases(pid, tier, rng):
+    """(history, v0) list: exhaustive small scopes first, then seeded random trees"""
+    kind = SYNC[pid]["kind"]
+    a, b = 0, 2                     # pool ids of None and False
+    alpha = [("sub", 0), ("sub", 1), ("unsub", 0), ("next", a), ("next", b), ("err", 11), ("done",), ("dispose",)]
+    L = 3 if tier == "quick" else 4
+    cases = [(h, a) for h in enum_flat(alpha, L)]
+    n_flat = len(cases)
+    tail = [("next", a), ("err", 11), ("done",), ("dispose",), ("unsub", 1), ("sub", 3)]
+    reactions = [("unsub", 0), ("unsub", 1), ("unsub", 2), ("sub", 3), ("next", b), ("err", 12), ("done",),
+                 ("dispose",)]
+    cases += [(h, b) for h in enum_reentrant([("sub", 0), ("sub", 1), ("sub", 2)], tail, reactions,
+                                             2 if tier == "quick" else 3)]
+    n_re = len(cases) - n_flat
+    nrand = 700 if tier == "quick" else 12000
+    for _ in range(nrand):
+        cases.append((gen_history(rng), rng.choice(VALS)))
+    return cases, {"exhaustive_flat": n_flat, "exhaustive_reentrant": n_re, "random": nrand,
+                   "flat_scope": f"all sequences of length <= {L} over {alpha}",
+                   "reentrant_scope": f"sub0 sub1 sub2 ++ all tails of length <= {2 if tier == 'quick' else 3} over "
+                                      f"{tail}, observer 0 or 1 reacting in its first callback with one of {reactions}"}
+
+
+def check_sync(chk, pid):
+    import lib
+    cfg = SYNC[pid]
+    kind = cfg["kind"]
+    proved = chk.build_and_prove()
+    tier = chk.tier if proved and not chk.broken else "thorough"
+    if tier != chk.tier:
+        chk.cov["search"] = "theorem file or build broke: case set enlarged to the thorough scope"
+    cases, scope = sync_cases(pid, tier, chk.rng)
+    gal, H, nontrivial = [], new_hist(), set()
+    for (h, v0) in cases:
+        rec, probe = run_sync(kind, h, v0)
+        chk.cov["evaluations"] += 1
+        hist_stats(h, rec, H)
+        if is_nontrivial(rec):
+            nontrivial.add(hist_key(h) + repr(v0))
+        for sig, detail in oracle_sync(kind, h, v0, rec, probe):
+            def still(hh, _sig=sig):
+                r2, p2 = run_sync(kind, hh, v0)
+                return any(s == _sig for s, _ in oracle_sync(kind, hh, v0, r2, p2))
+            hm = shrink(h, still)
+            r2, p2 = run_sync(kind, hm, v0)
+            d2 = [d for s, d in oracle_sync(kind, hm, v0, r2, p2) if s == sig][0]
+            chk.violation(f"{cfg['title']}|{sig}",
+                          {"class": cfg["title"], "initial_value_id": v0, "history": hist_json(hm),
+                           "pool": [repr(v) for v in POOL.values],
+                           "implementation_log": g_log(r2), "oracle": d2,
+                           "expected": "see harness/subj.py:oracle_sync docstring"},
+                          size=hist_size(hm))
+        gal.append((f"({gz(v0)}, {g_hist(h)})", f"({g_log(rec)}, true)"))
+    prelude = (f"Definition model (c : Z * history Z) := run_history {cfg['cls']} (fst c) {FUEL} (snd c).\n"
+               "Definition out_eqb (a b : list (@event Z) * bool) := "
+               "list_eqb event_eqb (fst a) (fst b) && Bool.eqb (snd a) (snd b).\n")
+    bad, logs = lib.correspondence(pid, "k1", SYNC_IMPORTS, "(Z * history Z) * (list (@event Z) * bool)",
+                                   "model", "out_eqb", gal, prelude=prelude)
+    chk.cov["traces_validated_against_impl"] = len(gal)
+    chk.cov["disagreements_checked"] = len(gal)
+    if bad:
+        firsts = [i for i in bad if i >= 0][:3]
+        detail = {"n_disagreements": len(bad), "logs": logs[:1],
+                  "first (initial value, history) / implementation log": [gal[i] for i in firsts]}
+        if firsts:
+            detail["model_says"] = lib.coq_show(pid, SYNC_IMPORTS, f"model {gal[firsts[0]][0]}", prelude)
+            detail["history"] = hist_json(cases[firsts[0]][0])
+        chk.tie_broken(f"correspondence K1: Subjects model of {cfg['title']} vs implementation", detail)
+    chk.cov["distinct_nontrivial"] = len(nontrivial)
+    chk.cov["exhaustive"] = True
+    chk.cov["rule"] = ("exhaustive small scopes (" + scope["flat_scope"] + "; " + scope["reentrant_scope"] +
+                       ") + seeded random call trees (2-6 observers, up to 12 top-level calls, reaction scripts "
+                       "of up to 3 callbacks x 2 nested calls per observer; values from a pool headed by None, 0, "
+                       "False, '', (), 0.0).  non-trivial = distinct (history, initial value) with at least two "
+                       "deliveries reaching at least two different observers")
+    chk.cov["input_distribution"] = dict(H, **{k: v for k, v in scope.items() if isinstance(v, int)})
+    step = max(1, len(cases) // 5)
+    chk.add_samples([{"history": hist_json(h), "initial_value_id": v0} for (h, v0) in cases[scope["exhaustive_flat"] - 1::step]])
+    return chk.finish(
+        trusted_extra=["K1 driver harness/subj.py (logging observers, try/except around every call, "
+                       "attribution of deliveries to the innermost open call)",
+                       "Observable.subscribe / AutoDetachObserver / SingleAssignmentDisposable / InnerSubscription "
+                       "are modelled inside the engine (Subjects/Subject.v) and covered by the same correspondence"],
+        assumptions=["single thread (the statement's histories are sequential call trees)",
+                     "observer callbacks do not raise into the subject (every nested call is wrapped in "
+                     "try/except by the driver); raising callbacks are C09's subject",
+                     "exact closed-form theorems (refinement to the broadcast specification, per-observer view) "
+                     "are for histories of top-level calls; for call trees the theorems are the safety "
+                     "properties (grammar, unsubscription effective at once, disposal) and the tree behaviour "
+                     "is otherwise covered by correspondence + oracle"])
+
+
+def replay_sync(chk, pid, path):
+    import json
+    d = json.load(open(path))
+    if "history" not in d:
+        print(json.dumps(d, indent=1))
+        return 1
+    kind = SYNC[pid]["kind"]
+    h, v0 = hist_from_json(d["history"]), d.get("initial_value_id", 0)
+    rec, probe = run_sync(kind, h, v0)
+    bad = oracle_sync(kind, h, v0, rec, probe)
+    print("history", h, "initial value id", v0)
+    print("implementation log", g_log(rec), "bare-subscribe probe", probe)
+    for s, dd in bad:
+        print("ORACLE FAILS", s, dd)
+    return 1 if bad else 0
+
+
+# --------------------------------------------------------------------------
+# C22: ReplaySubject on a virtual-time scheduler
+# --------------------------------------------------------------------------
+
+REPLAY_IMPORTS = "Base.Prelude Ops.Machine Subjects.Subject Subjects.Replay"
+
+
+def oracle_replay(hist, bs, w, rec, probe):
+    """C22 on the observed run.  For every observer o (first subscribe call S, made at virtual
+    time T):
+      replay(o) = the values of the on_next calls that took effect before S, restricted to the
+                  last `bs` of them and to those whose age T - t is <= `w`, in order, followed by
+                  the terminal notification if the subject had ended before S;
+      later(o)  = the notifications of the emissions that took effect after S, in call order;
+      what o received must be a PREFIX of  replay(o) ++ later(o)  cut after its first terminal
+      (nothing duplicated, reordered or invented, replay first) and must be ALL of it unless o
+      unsubscribed;  after dispose(): subscribe is answered with DisposedException only,
+      emissions raise it;  grammar per observer."""
+    tr = Trace(rec)
+    bad = []
+    reentrant = any(c["parent"] is not None for c in tr.order)
+
+    def fail(what, **d):
+        bad.append((f"{what}|reentrant={int(reentrant)}", dict(d, what=what, buffer_size=bs, window=w)))
+
+    for o in tr.observers:
+        got = [n for (_, n, _) in tr.view[o]]
+        if not wellformed(got):
+            fail("grammar", observer=o, received=got)
+        S = tr.sub.get(o)
+        if S is None:
+            if got:
+                fail("delivery-to-never-subscribed", observer=o, received=got)
+            continue
+        st = tr.status_at[S["id"]]
+        if st == "disposed":
+            if got != [("E", DISPOSED)]:
+                fail("subscribe-after-dispose", observer=o, received=got)
+            continue
+        vals = [(c["now"], c["op"][1]) for c in tr.accepted if c["op"][0] == "next" and c["start"] < S["start"]]
+        if bs is not None:
+            vals = vals[max(0, len(vals) - bs):] if bs > 0 else []
+        if w is not None:
+            vals = [(t, v) for (t, v) in vals if S["now"] - t <= w]
+        expect = [("N", v) for (_, v) in vals]
+        if st != "live":
+            expect.append(st[1])
+        expect += [note_of(c["op"]) for c in tr.accepted if c["start"] > S["start"]]
+        for i, n in enumerate(expect):
+            if n[0] != "N":
+                expect = expect[:i + 1]
+                break
+        unsubscribed = any(c["op"] == ("unsub", o) and S["end"] is not None and c["start"] > S["end"]
+                           for c in tr.order)
+        if not _is_prefix(got, expect):
+            fail("not-a-prefix-of-replay-then-later", observer=o, received=got, expected=expect,
+                 subscribed_at=S["now"])
+        elif not unsubscribed and got != expect:
+            fail("incomplete", observer=o, received=got, expected=expect, subscribed_at=S["now"])
+    for c in tr.order:
+        k = c["op"][0]
+        st = tr.status_at[c["id"]]
+        if k in ("next", "err", "done") and st == "disposed":
+            if c["raised"] != DISPOSED:
+                fail("emit-after-dispose-did-not-raise", call=c["op"], raised=c["raised"])
+        elif c["raised"] is not None:
+            fail("call-raised", call=c["op"], raised=c["raised"])
+    # a bare subscribe(): DisposedException is raised by _subscribe_core itself; a stored error is
+    # only queued on the scheduler (not drained by the probe), so nothing is raised
+    want = ("raised", DISPOSED) if tr.final_status == "disposed" else ("returned",)
+    if probe != want:
+        fail("bare-subscribe", probe=probe, expected=want, status=tr.final_status)
+    return bad
+
+
+def replay_cases(tier, rng):
+    a, b = 0, 2
+    alpha = [("sub", 0), ("sub", 1), ("next", a), ("next", b), ("adv", 1), ("adv", 2), ("done",), ("unsub", 0)]
+    if tier == "quick":
+        L, configs = 3, [(None, None), (0, None), (1, None), (2, 1), (None, 1), (1, 2), (2, 0)]
+    else:
+        L, configs = 4, [(bs, w) for bs in (None, 0, 1, 2, 3) for w in (None, 0, 1, 2)]
+    cases = [(h, bs, w) for (bs, w) in configs for h in enum_flat(alpha, L)]
+    n_flat = len(cases)
+    nrand = 900 if tier == "quick" else 15000
+    for _ in range(nrand):
+        cases.append((gen_history(rng, adv=True), rng.choice([None, 0, 1, 2, 3, 4]),
+                      rng.choice([None, None, 0, 1, 2, 3, 5, 100])))
+    return cases, {"exhaustive_flat": n_flat, "random": nrand,
+                   "flat_scope": f"all sequences of length <= {L} over {alpha} x (buffer_size, window) in {configs}"}
+
+
+def check_replay(chk):
+    import lib
+    from lib import gopt
+    pid = "C22"
+    proved = chk.build_and_prove()
+    tier = chk.tier if proved and not chk.broken else "thorough"
+    if tier != chk.tier:
+        chk.cov["search"] = "theorem file or build broke: case set enlarged to the thorough scope"
+    cases, scope = replay_cases(tier, chk.rng)
+    gal, H, nontrivial, kept = [], new_hist(), set(), []
+    H.update({"spinning_discarded": 0, "buffer_size": {}, "window": {}, "age_equals_window": 0,
+              "replayed_values": 0})
+    for (h, bs, w) in cases:
+        rec, probe, ok = run_replay(h, bs, w)
+        chk.cov["evaluations"] += 1
+        if not ok:
+            H["spinning_discarded"] += 1
+            continue
+        hist_stats(h, rec, H)
+        H["buffer_size"][str(bs)] = H["buffer_size"].get(str(bs), 0) + 1
+        H["window"][str(w)] = H["window"].get(str(w), 0) + 1
+        tr = Trace(rec)
+        if w is not None:
+            for o, S in tr.sub.items():
+                if any(c["op"][0] == "next" and c["start"] < S["start"] and S["now"] - c["now"] == w
+                       for c in tr.accepted):
+                    H["age_equals_window"] += 1
+                    break
+        if any(len(tr.view[o]) >= 2 for o in tr.observers) and is_nontrivial(rec):
+            nontrivial.add(hist_key(h) + repr((bs, w)))
+        for sig, detail in oracle_replay(h, bs, w, rec, probe):
+            def still(hh, _sig=sig):
+                r2, p2, ok2 = run_replay(hh, bs, w)
+                return ok2 and any(s == _sig for s, _ in oracle_replay(hh, bs, w, r2, p2))
+            hm = shrink(h, still)
+            r2, p2, _ = run_replay(hm, bs, w)
+            d2 = [d for s, d in oracle_replay(hm, bs, w, r2, p2) if s == sig][0]
+            chk.violation(f"ReplaySubject|{sig}",
+                          {"class": "ReplaySubject", "buffer_size": bs, "window": w, "history": hist_json(hm),
+                           "pool": [repr(v) for v in POOL.values],
+                           "implementation_log": g_log(r2, "R", "RE"), "oracle": d2,
+                           "expected": "see harness/subj.py:oracle_replay docstring"},
+                          size=hist_size(hm))
+        gal.append((f"(({gopt(bs)}, {gopt(w)}), {g_hist(h, 'R')})", f"({g_log(rec, 'R', 'RE')}, true)"))
+        kept.append((h, bs, w))
+    prelude = (f"Definition model (c : (option Z * option Z) * rhistory Z) := "
+               f"run_rhistory (fst (fst c)) (snd (fst c)) {FUEL} (snd c).\n"
+               "Definition out_eqb (a b : list (@revent Z) * bool) := "
+               "list_eqb revent_eqb (fst a) (fst b) && Bool.eqb (snd a) (snd b).\n")
+    bad, logs = lib.correspondence(pid, "k1", REPLAY_IMPORTS,
+                                   "((option Z * option Z) * rhistory Z) * (list (@revent Z) * bool)",
+                                   "model", "out_eqb", gal, prelude=prelude)
+    chk.cov["traces_validated_against_impl"] = len(gal)
+    chk.cov["disagreements_checked"] = len(gal)
+    if bad:
+        firsts = [i for i in bad if i >= 0][:3]
+        detail = {"n_disagreements": len(bad), "logs": logs[:1],
+                  "first ((buffer_size, window), history) / implementation log": [gal[i] for i in firsts]}
+        if firsts:
+            detail["model_says"] = lib.coq_show(pid, REPLAY_IMPORTS, f"model {gal[firsts[0]][0]}", prelude)
+            detail["history"] = hist_json(kept[firsts[0]][0])
+        chk.tie_broken("correspondence K1: Subjects/Replay.v vs ReplaySubject on a VirtualTimeScheduler", detail)
+    chk.cov["distinct_nontrivial"] = len(nontrivial)
+    chk.cov["exhaustive"] = True
+    chk.cov["rule"] = ("exhaustive small scope (" + scope["flat_scope"] + ") + seeded random call trees (as C20, plus "
+                       "clock advances 0..5 ticks) with buffer_size in None,0..4 and window in None,0,1,2,3,5,100 "
+                       "ticks.  The subject runs on a VirtualTimeScheduler drained after every top-level call.  "
+                       "non-trivial = distinct (history, configuration) with deliveries to >= 2 observers, one "
+                       "of which received >= 2 notifications")
+    chk.cov["input_distribution"] = dict(H, **{k: v for k, v in scope.items() if isinstance(v, int)})
+    step = max(1, len(kept) // 5)
+    chk.add_samples([{"history": hist_json(h), "buffer_size": bs, "window": w} for (h, bs, w) in kept[step - 1::step]])
+    return chk.finish(
+        trusted_extra=["K1 driver harness/subj.py; VirtualTimeScheduler (real) used as the subject's scheduler and "
+                       "drained by the driver with start() after every top-level call; its FIFO behaviour at one "
+                       "instant is modelled (r_sched) and covered by the correspondence",
+                       "ScheduledObserver, SerialDisposable, RemovableDisposable, AutoDetachObserver modelled in "
+                       "Subjects/Replay.v"],
+        assumptions=["single thread; observer callbacks do not raise",
+                     "fewer than 100 scheduler actions per drain (VirtualTimeScheduler.start bumps the clock "
+                     "after 100 actions at one instant; such runs are discarded and counted: spinning_discarded)",
+                     "buffer_size >= 0 or None; clock advances >= 0; window in whole ticks",
+                     "delivery through other schedulers (the default CurrentThreadScheduler trampoline) is not "
+                     "covered by this check"])
+
+
+def replay_replay(chk, path):
+    import json
+    d = json.load(open(path))
+    if "history" not in d:
+        print(json.dumps(d, indent=1))
+        return 1
+    h = hist_from_json(d["history"])
+    rec, probe, ok = run_replay(h, d["buffer_size"], d["window"])
+    bad = oracle_replay(h, d["buffer_size"], d["window"], rec, probe)
+    print("history", h, "buffer_size", d["buffer_size"], "window", d["window"])
+    print("implementation log", g_log(rec, "R", "RE"), "bare-subscribe probe", probe)
+    for s, dd in bad:
+        print("ORACLE FAILS", s, dd)
+    return 1 if bad else 0
